@@ -144,7 +144,7 @@ CHECKS = {
                   "for depth-boundedness and termination; the running pipeline instrumented from the harness and every call edge / dispatch "
                   "decision / stage outcome validated by TLC against the model (HGeneratorTrace)",
         text="Model checking of the skeleton (bounded and terminating once the zero-cost links of F17 are cut; TLC must find the lasso otherwise) "
-             "plus exploration: 1 024 programs (quick) / 10 240 (thorough) over 4 languages x max_depth 2..8 x switch settings, each through all "
+             "plus exploration: 256 programs (quick) / 5 120 (thorough) over 4 languages x max_depth 2..8 x switch settings, each through all "
              "pipeline stages; no exception in any stage, every generator edge in the model's edge table with its depth increment, leaf rule at "
              "every dispatch, depth restored on exit, nesting and call budget bounded.",
         design_ref="DESIGN.md §5 C18",
